@@ -940,7 +940,7 @@ class C12(Prop):
                    'disconnect is a violation; error events for sockets that were never announced are ignored',
                    'a connection reset by the peer before the server could accept it need not be announced at all',
                    'a deferred close whose data the kernel does not take within the iteration bound is inconclusive')
-    budget = {'quick': (1500, 4), 'thorough': (10000, 16)}
+    budget = {'quick': (1500, 4), 'thorough': (60000, 16)}
 
     def setup(self):
         driver.quiet_process()
